@@ -269,6 +269,9 @@ func (f *Frame) runRegion(reach string, heap *Heap, rg *region) {
 			continue
 		}
 		f.curBlock = b
+		if f.top && rg == nil {
+			e.curBlk = b.Index
+		}
 		var conds []string
 		var heaps []*Heap
 		var preds []*ssa.BasicBlock
@@ -294,6 +297,24 @@ func (f *Frame) runRegion(reach string, heap *Heap, rg *region) {
 		}
 		if len(conds) == 0 {
 			continue // unreachable
+		}
+		if f.top && rg == nil && li == nil && len(conds) > 1 && e.con != nil && e.con.SplitReturns && returnOnly(b) && len(f.defers) == 0 {
+			// tail duplication: a block that only returns is encoded once per incoming
+			// path, so that the postconditions are checked against each path's own heap
+			for k := range conds {
+				if preds[k] != nil {
+					e.curBlk = preds[k].Index
+				}
+				f.curReach = e.define("R!"+f.prefix+"!"+fmt.Sprint(b.Index), "Bool", conds[k])
+				f.reach[b.Index] = f.curReach
+				f.heap = heaps[k].clone()
+				for _, ins := range b.Instrs {
+					f.instr(ins)
+				}
+			}
+			done[b.Index] = true
+			f.endHeap[b.Index] = f.heap
+			continue
 		}
 		r := e.define("R!"+f.prefix+"!"+fmt.Sprint(b.Index), "Bool", or(conds...))
 		f.reach[b.Index] = r
@@ -1016,8 +1037,27 @@ func loopStoresTo(li *LoopInfo, fn *ssa.Function, al *ssa.Alloc) bool {
 						return true
 					}
 				}
+			case ssa.CallInstruction:
+				// the callee may write through a pointer into the cell
+				for _, a := range x.Common().Args {
+					if rooted(a) {
+						return true
+					}
+				}
 			}
 		}
 	}
 	return false
+}
+
+// returnOnly: the block consists of a return (and debug references) only.
+func returnOnly(b *ssa.BasicBlock) bool {
+	for _, ins := range b.Instrs {
+		switch ins.(type) {
+		case *ssa.Return, *ssa.DebugRef:
+		default:
+			return false
+		}
+	}
+	return len(b.Succs) == 0
 }
